@@ -46,7 +46,7 @@ def sparse_table(rng, nx, ny, den):
 
 def gen(rng, tier):
     out = []
-    nrand = 2 if tier == "quick" else 300
+    nrand = 2 if tier == "quick" else 60     # the exact model needs about a second per merged table
     gid = 0
     ex = EXAMPLE
     c1 = [([x / 16 for x in b], u / 16) for b, u in ex[0]]
